@@ -19,12 +19,16 @@ KNOWN_FILE = os.path.join(VERIF_DIR, 'known_findings.json')
 
 
 def load_known(prop):
-    try:
-        with open(KNOWN_FILE) as f:
-            data = json.load(f)
-    except FileNotFoundError:
-        return {}
-    return {e['key']: e for e in data.get('findings', []) if e.get('property') == prop and e.get('status') == 'open'}
+    """open entries of known_findings.json (plus not yet merged fragments in known_findings.d/)."""
+    import glob
+    entries = []
+    for path in [KNOWN_FILE] + sorted(glob.glob(os.path.join(VERIF_DIR, 'known_findings.d', '*.json'))):
+        try:
+            with open(path) as f:
+                entries.extend(json.load(f).get('findings', []))
+        except FileNotFoundError:
+            pass
+    return {e['key']: e for e in entries if e.get('property') == prop and e.get('status') == 'open'}
 
 
 def worker_env():
